@@ -21,8 +21,15 @@
    (EReadLasFault), and inside the close method itself (EEndFault: the j-th statement of the close method that may use
    the stream raises; the close actions that run all the same are the generated gen_close_*_faults: those before the
    statement and the `finally` blocks around it).
+   LAZ-flagged files (bit 7 of the point format id, a laszip VLR) in an environment in which the LAZ point reader cannot be
+   built (no backend selected / available, or its constructor fails: f_laz = Some x): opening succeeds - the point source
+   is lazy, the header can be looked at -, every operation that needs the point source raises x and creates nothing, an
+   appender refuses the file while it is being constructed; an empty LAZ-flagged file gets the empty-file point reader.
+   A close method that reaches the point source through the lazy property (`self.point_source.close()`, ActLazyPS - not
+   in the source as it is: C18_close_builds_nothing) builds it on the way, and raises when it cannot be built: close_handle
+   and close_exn say what that does, so that such a change of the source is a term of the model, not a translation failure.
    Not modelled: positions during write/append sessions and after a failure of the stream (left unchanged), LAZ point
-   sources, double close. *)
+   sources that can be built (no backend is installed), double close. *)
 From Coq Require Import ZArith List Bool.
 From LasV Require Import Lib.Base Gen.GenCursor Gen.GenOwnership.
 Import ListNotations.
@@ -36,8 +43,12 @@ Inductive outcome := OOk | OEmpty | OBadSig | OTruncated | OBadVlr | OIncompat
 (* the facts about a well-formed file that positions depend on *)
 (* f_size is the size of the whole stream (what precedes the LAS content included), f_evlr_start the absolute position
    LasHeader.read_evlrs seeks to, f_evlr_bad says that the EVLRs found there cannot be decoded (non-ASCII user id) *)
+(* f_laz: None = the points are not compressed; Some x = the header flags them as compressed (LAZ) and, in the environment
+   the session runs in, building the LAZ point reader raises x: no backend is selected or available (LaspyException), or
+   the backend's constructor fails (whatever it raises) *)
 Record finfo := mkF { f_offset : Z; f_count : Z; f_psize : Z; f_minor : Z; f_nevlrs : Z;
-                      f_evlr_start : Z; f_evlr_bytes : Z; f_size : Z; f_evlr_bad : bool }.
+                      f_evlr_start : Z; f_evlr_bytes : Z; f_size : Z; f_evlr_bad : bool; f_laz : option exn }.
+Definition is_laz (f : finfo) : bool := match f_laz f with Some _ => true | None => false end.
 
 (* what the object answers when it is asked whether it can seek: True | False | it has no `seekable` attribute at all
    (a source that offers only read(): it cannot seek or tell either) *)
@@ -103,7 +114,7 @@ Definition set_pos (s : stream) (p : Z) : stream := mkS (s_closed s) p (s_cap s)
 
 (* a close action run by a point source object; it holds the stream only if it was handed it (None.close() raises) *)
 Definition ps_act (src_some : bool) (s : stream) (a : cact) : stream :=
-  match a with ActSrc => if src_some then close_stream s else s | ActPS => s end.
+  match a with ActSrc => if src_some then close_stream s else s | ActPS | ActLazyPS => s end.
 
 Definition ps_close (p : psrc) (s : stream) : stream :=
   match p with
@@ -114,15 +125,46 @@ Definition ps_close (p : psrc) (s : stream) : stream :=
 
 (* a close action run by the reader / writer / appender (or by an except clause of open_las, where no point source exists) *)
 Definition top_act (p : psrc) (s : stream) (a : cact) : stream :=
-  match a with ActSrc => close_stream s | ActPS => ps_close p s end.
+  match a with ActSrc => close_stream s | ActPS | ActLazyPS => ps_close p s end.
 
 Definition has_ps (p : psrc) : bool := match p with PNone => false | _ => true end.
 
 Definition close_prog (m : omode) : bool -> bool -> bool -> list cact :=
   match m with MR => gen_close_reader | MW => gen_close_writer | MA => gen_close_appender end.
 
+(* building the point source: it is made, or - a LAZ backend's reader in this environment - building it raises *)
+Inductive made := Made (p : psrc) | NotMade (x : exn).
+
+Definition new_ps (f : finfo) : made :=
+  match gen_point_source_kind (0 <? f_count f) (is_laz f) with
+  | PKUncompressed b => Made (PReal b)
+  | PKEmpty b => Made (PNull b)
+  | PKBackend _ => NotMade (match f_laz f with Some x => x | None => XOther end)
+  end.
+
+(* the lazy property LasReader.point_source: when building fails nothing is kept, the next use tries again *)
+Definition ensure_ps (h : handle) : made := match h_ps h with PNone => new_ps (h_file h) | p => Made p end.
+
+(* A close method that goes through the lazy property (`self.point_source.close()`: ActLazyPS, always the last statement the
+   method executes) works with the point source the reader has or, when there is none yet, with the one that is built then;
+   when building it raises, so does the method: the actions before it have run, nothing else does *)
+Definition is_lazy (a : cact) : bool := match a with ActLazyPS => true | _ => false end.
+Fixpoint before_lazy (acts : list cact) : list cact :=
+  match acts with [] => [] | a :: r => if is_lazy a then [] else a :: before_lazy r end.
+
+Definition close_acts (h : handle) : list cact := close_prog (h_mode h) (h_closefd h) (has_ps (h_ps h)) true.
+
 Definition close_handle (h : handle) (s : stream) : stream :=
-  fold_left (top_act (h_ps h)) (close_prog (h_mode h) (h_closefd h) (has_ps (h_ps h)) true) s.
+  if existsb is_lazy (close_acts h) then
+    match ensure_ps h with
+    | Made p => fold_left (top_act p) (close_acts h) s
+    | NotMade _ => fold_left (top_act (h_ps h)) (before_lazy (close_acts h)) s
+    end
+  else fold_left (top_act (h_ps h)) (close_acts h) s.
+
+(* the exception the close method itself raises although the stream did nothing wrong *)
+Definition close_exn (h : handle) : option exn :=
+  if existsb is_lazy (close_acts h) then match ensure_ps h with Made _ => None | NotMade x => Some x end else None.
 
 (* ---------------- exceptions through the except clauses of open_las ---------------- *)
 Definition catches (c : catch_class) (x : exn) : bool :=
@@ -148,6 +190,7 @@ Definition sop_step (f : finfo) (c : cur) (op : sop) : cur :=
   match op with
   | SRead n => let p := rd (f_size f) (c_pos c) n in mkCur p (c_saved c) (c_got c + (p - c_pos c))
   | SReadToOffset => let p := rd (f_size f) (c_pos c) (f_offset f - c_got c) in mkCur p (c_saved c) (c_got c + (p - c_pos c))
+  | SReadToOffsetMax m => let p := rd (f_size f) (c_pos c) (Z.min (f_offset f - c_got c) m) in mkCur p (c_saved c) (c_got c + (p - c_pos c))
   | STellSave => mkCur (c_pos c) (c_pos c) (c_got c)
   | SSeekEvlrStart => mkCur (f_evlr_start f) (c_saved c) (c_got c)
   | SReadEvlrs => mkCur (rd (f_size f) (c_pos c) (f_evlr_bytes f)) (c_saved c) (c_got c)
@@ -180,15 +223,16 @@ Definition pending_evlrs (f : finfo) (read_evlrs : bool) (c : seekcap) : bool :=
    to) fails when the stream cannot even be asked whether it can seek (AttributeError), and - the stream can seek to
    them - on EVLRs that cannot be decoded (UnicodeDecodeError) *)
 Definition is_r (m : omode) : bool := match m with MR => true | _ => false end.
+Definition is_a (m : omode) : bool := match m with MA => true | _ => false end.
 Definition open_exn (m : omode) (o : outcome) (f : finfo) (read_evlrs : bool) (c : seekcap) : option exn :=
   match fail_exn m o with
   | Some x => Some x
-  | None => if is_r m && gen_read_from_prefetch_then_evlrs && read_evlrs && (evlr_raises f c || evlr_guard f c && f_evlr_bad f)
+  | None => if is_a m && is_laz f then Some gen_appender_laz_exn     (* LasAppender._create_laz_backend: no backend *)
+            else if is_r m && gen_read_from_prefetch_then_evlrs && read_evlrs && (evlr_raises f c || evlr_guard f c && f_evlr_bad f)
             then Some XOther else None
   end.
 
 (* ---------------- opening ---------------- *)
-Definition is_a (m : omode) : bool := match m with MA => true | _ => false end.
 
 (* LasAppender.__init__ starts with `if not dest.seekable(): raise ..`: its own exception for a destination that answers
    no, AttributeError for one that cannot be asked *)
@@ -222,11 +266,6 @@ Definition do_open (declared : bool) (m : omode) (closefd read_evlrs : bool) (f 
   end.
 
 (* ---------------- reader operations ---------------- *)
-Definition new_ps (f : finfo) : psrc :=
-  match gen_point_source_kind (0 <? f_count f) with PKUncompressed b => PReal b | PKEmpty b => PNull b end.
-
-Definition ensure_ps (h : handle) : psrc := match h_ps h with PNone => new_ps (h_file h) | p => p end.
-
 Definition ps_src_some (p : psrc) : bool := match p with PNone => false | PReal b => b | PNull b => b end.
 
 Definition set_ps (h : handle) (p : psrc) : handle :=
@@ -243,7 +282,9 @@ Definition do_read_points (n : Z) (h : handle) (s : stream) : handle * stream * 
   let f := h_file h in
   let '(pr, k) := gen_read_points (f_count f) (h_read h) n in
   if k <? 0 then (set_read h pr, s, RDone)                            (* nothing left: the point source is not touched *)
-  else let p := ensure_ps h in
+  else match ensure_ps h with
+       | NotMade x => (h, s, RRaised x)                                  (* no point source, nothing read *)
+       | Made p =>
        match p with
        | PReal _ =>
            let p' := rd (f_size f) (s_pos s) (k * f_psize f) in
@@ -251,6 +292,7 @@ Definition do_read_points (n : Z) (h : handle) (s : stream) : handle * stream * 
            then (set_ps h p, set_pos s p', RRaised XOther)              (* points_read is not advanced *)
            else (set_ps (set_read h pr) p, set_pos s p', RDone)
        | _ => (set_ps (set_read h pr) p, s, RDone)
+       end
        end.
 
 Definition do_seek (pos whence : Z) (h : handle) (s : stream) : handle * stream * res :=
@@ -258,11 +300,14 @@ Definition do_seek (pos whence : Z) (h : handle) (s : stream) : handle * stream 
   match gen_seek (f_count f) (h_read h) pos whence with
   | Err _ => (h, s, RRaised XOther)
   | Ok (pr, idx) =>
-      let p := ensure_ps h in
+      match ensure_ps h with
+      | NotMade x => (h, s, RRaised x)
+      | Made p =>
       match p with
       | PReal _ => if s_seekable s then (set_ps (set_read h pr) p, set_pos s (f_offset f + idx * f_psize f), RDone)
                    else (set_ps h p, s, RRaised XOther)
       | _ => (set_ps (set_read h pr) p, s, RDone)
+      end
       end
   end.
 
@@ -280,7 +325,8 @@ Definition load_pending (h : handle) (s : stream) : handle * stream * res :=
                      else (clear_pending h, set_pos s (run_sops f gen_read_evlrs_ops (s_pos s)), RDone)
       | Some false => (h, s, RDone)
       end
-  | Some false => if f_evlr_bad f then (h, s, RRaised XOther)
+  | Some false => if is_laz f then (h, s, RRaised XLaspy)      (* "Reading EVLRs from a LAZ in a non-seekable stream can only be done with lazrs backend" *)
+                  else if f_evlr_bad f then (h, s, RRaised XOther)
                   else (clear_pending h, set_pos s (rd (f_size f) (s_pos s) (f_evlr_bytes f)), RDone)
   end.
 
@@ -289,15 +335,24 @@ Definition do_read_all (h : handle) (s : stream) : handle * stream * res :=
   match r1 with
   | RDone =>
     if h_pending_evlrs h1 then
-      let p := ensure_ps h1 in                       (* `self.point_source.source` creates the point source *)
+      match ensure_ps h1 with                        (* `self.point_source.source` creates the point source *)
+      | NotMade x => (h1, s1, RRaised x)
+      | Made p =>
       let h2 := set_ps h1 p in
       if ps_src_some p then load_pending h2 s1
       else (h2, s1, RRaised XOther)                  (* None.seekable() / None.read() *)
+      end
     else (h1, s1, RDone)
   | _ => (h1, s1, r1)
   end.
 
 (* ---------------- letting go ---------------- *)
+(* what leaving the with statement / calling close() gives: the method's own exception if it raises one (it replaces the
+   exception of the with-body), else what was on its way *)
+Definition end_res (via_exit : bool) (h : handle) (r : res) : res :=
+  if via_exit && negb (gen_exit_closes (h_mode h)) then r
+  else match close_exn h with Some y => RRaised y | None => r end.
+
 Definition end_handle (hw : how) (via_exit : bool) (t : st) (h : handle) : st :=
   let s := st_s t in
   let s' := if via_exit && negb (gen_exit_closes (h_mode h)) then s else close_handle h s in
@@ -317,9 +372,10 @@ Definition end_handle_fault (via_exit : bool) (j : nat) (t : st) (h : handle) : 
        end.
 
 (* an operation on the handle fails because the stream did: a reader reaches its stream through the point source *)
-Definition op_fault (h : handle) : handle := if is_r (h_mode h) then set_ps h (ensure_ps h) else h.
+Definition op_fault (h : handle) : handle :=
+  if is_r (h_mode h) then match ensure_ps h with Made p => set_ps h p | NotMade _ => h end else h.
 
-Definition f_none : finfo := mkF 0 0 0 0 0 0 0 0 false.
+Definition f_none : finfo := mkF 0 0 0 0 0 0 0 0 false None.
 
 Definition do_lasdata_write (o : outcome) (t : st) : st * res :=
   let s := st_s t in
@@ -349,11 +405,14 @@ Definition step (t : st) (e : event) : st * res :=
   | EReadPoints n => on_reader t (fun h => let '(h', s', r) := do_read_points n h (st_s t) in (upd t h' s', r))
   | ESeek pos whence => on_reader t (fun h => let '(h', s', r) := do_seek pos whence h (st_s t) in (upd t h' s', r))
   | EReadAll => on_reader t (fun h => let '(h', s', r) := do_read_all h (st_s t) in (upd t h' s', r))
-  | EPointSource => on_reader t (fun h => (upd t (set_ps h (ensure_ps h)) (st_s t), RDone))
+  | EPointSource => on_reader t (fun h => match ensure_ps h with
+                                          | Made p => (upd t (set_ps h p) (st_s t), RDone)
+                                          | NotMade x => (t, RRaised x)
+                                          end)
   | EWrite => on_handle t (fun h => if is_r (h_mode h) then (t, RIgnored) else (t, RDone))
-  | EBodyRaises x => on_handle t (fun h => (end_handle HBodyRaised true t h, RRaised x))
-  | EExit => on_handle t (fun h => (end_handle HExit true t h, RDone))
-  | EClose => on_handle t (fun h => (end_handle HClose false t h, RDone))
+  | EBodyRaises x => on_handle t (fun h => (end_handle HBodyRaised true t h, end_res true h (RRaised x)))
+  | EExit => on_handle t (fun h => (end_handle HExit true t h, end_res true h RDone))
+  | EClose => on_handle t (fun h => (end_handle HClose false t h, end_res false h RDone))
   | ELasDataWrite o => do_lasdata_write o t
   | EReadLas cf f o =>
       match st_h t with
@@ -363,7 +422,7 @@ Definition step (t : st) (e : event) : st * res :=
           match st_h t1 with
           | None => (t1, r1)
           | Some h => let '(h', s', r) := do_read_all h (st_s t1) in
-                      (end_handle (match r with RDone => HExit | _ => HBodyRaised end) true (upd t1 h' s') h', r)
+                      (end_handle (match r with RDone => HExit | _ => HBodyRaised end) true (upd t1 h' s') h', end_res true h' r)
           end
       end
   | ERewind p =>
@@ -379,7 +438,7 @@ Definition step (t : st) (e : event) : st * res :=
           let '(t1, r1) := do_open cf MR (gen_read_las_closefd cf) true f OOk t in
           match st_h t1 with
           | None => (t1, r1)
-          | Some h => (end_handle HBodyRaised true (upd t1 (op_fault h) (st_s t1)) (op_fault h), RRaised x)
+          | Some h => (end_handle HBodyRaised true (upd t1 (op_fault h) (st_s t1)) (op_fault h), end_res true (op_fault h) (RRaised x))
           end
       end
   end.
